@@ -2,16 +2,23 @@
 (* C16: certificates issued by security_v2.self_sign / sign_req / derive_cert (all through new_cert).
 
    request q:
-     fn       "self_sign" | "sign_req" | "derive"
+     fn       "self_sign" | "sign_req" | "derive" (derive_cert) | "new_cert" (issuance with explicit start and end)
      subj     subject key type (only selects the key; publen is its DER length)
      keyname  <<[t, l], ...>>   the subject key name  /<identity>/KEY/<key id>
      publen   length of the public key (the certificate content)
-     issuer   [t, l]            issuer-id component given to derive_cert (text or typed component)
+     issuer   [t, l]            the issuer-id component the caller asks for
+     idform   how the caller writes it for derive_cert: "comp" (an encoded component) or text in NDN URI
+              syntax - "plain" (unreserved characters), "escaped" (%XX escapes), "typed" (<type>=<value>),
+              "short" (v= seg= off= t= seq= followed by a decimal number).  All spellings denote the same
+              component, so the expected certificate does not depend on idform; the executor writes the
+              text from the component (an oracle independent of Component.from_str)
      sg       signer model of the issuing key (kind, reserve r, actual a, key locator kl)
      clock    [d, s, ms]        the wall clock while issuing (version component; "now" of self_sign / sign_req)
      start    [d, s]  dur  n    derive_cert arguments: not-before instant (UTC) and lifetime in seconds
-     tz       minutes east of UTC in which the caller expresses `start` (-1000 = naive datetime taken as UTC);
-              an aware datetime denotes an instant, so the expected validity text does not depend on tz
+     tz, tz2  minutes east of UTC in which the caller expresses `start` resp. the end (-1000 = naive datetime
+              taken as UTC); an aware datetime denotes an instant, so the expected validity text does not
+              depend on them.  derive_cert computes the end from the start (tz2 = tz); new_cert takes both
+              datetimes, and they may be of different kinds (naive start, aware end, ...)
 
    expected certificate = Data packet CertCfg(q) (NdnPackets!Final): name = keyname / issuer / version,
    MetaInfo{ContentType = KEY, FreshnessPeriod = 3 600 000}, Content = public key,
@@ -25,7 +32,7 @@ ReqComp == [t |-> 8, l |-> 12]          \* "cert-request"
 Epoch == Inst(0, 0)
 Now(q) == Inst(q.clock.d, q.clock.s)
 
-IssuerComp(q) == IF q.fn = "self_sign" THEN SelfComp ELSE IF q.fn = "sign_req" THEN ReqComp ELSE q.issuer
+IssuerComp(q) == IF q.fn = "self_sign" THEN SelfComp ELSE IF q.fn = "sign_req" THEN ReqComp ELSE q.issuer   \* derive, new_cert
 CertName(q) == q.keyname \o <<IssuerComp(q), [t |-> TVersion, l |-> MsWidth(q.clock)]>>
 
 CertCfg(q) ==
@@ -37,7 +44,7 @@ CertCfg(q) ==
 \* self_sign and sign_req choose their own period (today: 1970..now+20 years, now..now+10 days); the statement
 \* fixes no numbers for them, so the reference only requires a well-formed period that contains the moment of
 \* issuing (a certificate that is not valid when it is made would be useless).
-Exact(q) == q.fn = "derive"
+Exact(q) == q.fn \in {"derive", "new_cert"}
 NotBefore(q) == Render(q.start)
 NotAfterInst(q) == AddSec(q.start, q.dur)
 NotAfter(q) == Render(NotAfterInst(q))
